@@ -502,6 +502,10 @@ func runWorker(ld *loaded, h *harness, stubs map[string]*ssa.Function, tier stri
 		PartIndex:       pi,
 		PartCount:       pc,
 	}
+	if m := harnessRe.FindStringSubmatch(h.name); m != nil {
+		known, prop := loadKnown(), m[1]
+		cfg.KnownClass = func(v *sym.Violation) int { return knownClass(known, prop, v) }
+	}
 	if tier == "thorough" {
 		cfg.CrossCheck = []string{"cvc5", "z3-new"}
 	}
@@ -529,13 +533,35 @@ func runWorker(ld *loaded, h *harness, stubs map[string]*ssa.Function, tier stri
 }
 
 type knownFinding struct {
-	Property string `json:"property"`
-	Harness  string `json:"harness"`
-	Kind     string `json:"kind"`
-	Match    string `json:"match"`  // substring of "pos | msg"
-	Status   string `json:"status"` // known | fixed
-	What     string `json:"what"`
-	Commit   string `json:"commit,omitempty"`
+	Property string   `json:"property"`
+	Harness  string   `json:"harness"`
+	Kind     string   `json:"kind"`
+	Match    string   `json:"match"`               // substring of "pos | msg"
+	MatchAll []string `json:"match_all,omitempty"` // further substrings that must all occur
+	Status   string   `json:"status"`              // known | fixed
+	What     string   `json:"what"`
+	Commit   string   `json:"commit,omitempty"`
+}
+
+// knownClass: index of the status=known finding that violation v of property prop matches, or -1.
+func knownClass(known []knownFinding, prop string, v *sym.Violation) int {
+	sig := v.Pos + " | " + v.Msg
+	for i, k := range known {
+		if k.Status != "known" || k.Property != prop || (k.Harness != "" && k.Harness != v.Harness) ||
+			(k.Kind != "" && k.Kind != v.Kind) || !strings.Contains(sig, k.Match) {
+			continue
+		}
+		all := true
+		for _, m := range k.MatchAll {
+			if !strings.Contains(sig, m) {
+				all = false
+			}
+		}
+		if all {
+			return i
+		}
+	}
+	return -1
 }
 
 func loadKnown() []knownFinding {
@@ -616,6 +642,7 @@ func report(prop, tier string, seed int, results []*harnessResult, start time.Ti
 			"harness": r.h.name, "paths": st.Paths, "instructions": st.Instrs, "obligations": st.Obligations,
 			"discharged": st.Discharged, "violations": len(r.ex.Violations), "wall_s": r.wall,
 			"sched_points": st.SchedPoints, "max_decisions": st.MaxDecisions,
+			"race_checked_accesses": st.RaceChecks, "happens_before_release_edges": st.SyncEdges, "blocking_ops_checked_for_deadlock": st.DeadlockChecks,
 			"bounds": r.h.opts,
 		})
 		fmt.Printf("  %-40s paths=%-6d instrs=%-9d obl=%-6d viol=%d ifconv=%d sched=%d wall=%.1fs z3=%d/%.1fs cvc5=%d/%.1fs\n", r.h.name, st.Paths, st.Instrs, st.Obligations, len(r.ex.Violations), st.IfConverted, st.SchedPoints, r.wall, st.SolverQueries["z3"], st.SolverTime["z3"], st.SolverQueries["cvc5"], st.SolverTime["cvc5"])
@@ -637,24 +664,20 @@ func report(prop, tier string, seed int, results []*harnessResult, start time.Ti
 			}
 		}
 		for i, v := range r.ex.Violations {
-			sig := v.Pos + " | " + v.Msg
-			matched := false
-			for _, k := range known {
-				if k.Status == "known" && k.Property == prop && (k.Harness == "" || k.Harness == v.Harness) &&
-					(k.Kind == "" || k.Kind == v.Kind) && strings.Contains(sig, k.Match) {
-					fmt.Printf("KNOWN-FINDING: property=%s %s [%s at %s]\n", prop, k.What, v.Kind, v.Pos)
-					matched = true
-					knownHits++
-					break
-				}
-			}
-			if matched {
+			if ki := knownClass(known, prop, v); ki >= 0 {
+				fmt.Printf("KNOWN-FINDING: property=%s %s [%s at %s]\n", prop, known[ki].What, v.Kind, v.Pos)
+				knownHits++
 				continue
 			}
 			path := filepath.Join(verifDir, "replays", fmt.Sprintf("%s-%s-%d.json", prop, v.Harness, i))
 			b, _ := json.MarshalIndent(v, "", " ")
 			os.WriteFile(path, b, 0o644)
 			ok, detail := replayNative(r.h, path)
+			if !ok && v.Kind == "race" {
+				if rok, rdetail := replayNativeRace(r.h, path); rok {
+					ok, detail = true, rdetail
+				}
+			}
 			if !ok && (r.h.opts["preempt"] != "" || r.h.opts["replay"] == "engine" || v.Kind == "race") {
 				if replayEngine(r.ld, r.h, r.stubs, v) {
 					ok = true
